@@ -142,6 +142,11 @@ MarkAtPosition(ts, position) ==
                 pos == position - CharsBefore(ts, i)
             IN Splice(ts, i, <<T(SubSeq(s, 1, pos)), E("bm", 0), T(SubSeq(s, pos + 1, Len(s)))>>)
 
+(* position = (a, b): a start mark at a and an end mark at b - both or nothing *)
+MarkRange(ts, a, b) ==
+    IF MarkSlotPosition(ts, a) = 0 \/ MarkSlotPosition(ts, b) = 0 THEN ts
+    ELSE MarkAtPosition(MarkAtPosition(ts, b), a)
+
 -----------------------------------------------------------------------------
 (* removals: strip_tags(tag) drops the tags and keeps everything inside;    *)
 (* delete(element) removes the element WITH its content, keeping the tail   *)
@@ -203,6 +208,7 @@ ApplyOp(ts, o) ==
       [] o.op = "wrap_pattern"    -> WrapByPattern(ts, o.tag, o.p)
       [] o.op = "mark_occurrence" -> MarkAtOccurrence(ts, o.p, o.nth, o.before)
       [] o.op = "mark_position"   -> MarkAtPosition(ts, o.pos)
+      [] o.op = "mark_range"      -> MarkRange(ts, o.a, o.b)
       [] o.op = "strip_tags"      -> StripTags(ts, o.tag, <<>>)
       [] o.op = "delete"          -> DeleteAt(ts, o.i)
 
